@@ -19,6 +19,91 @@ def build(chk):
     return impl, model
 
 
+def build_gen(chk, protos):
+    """harness variant that also contains gcc-compiled callers/callees for the expressible prototypes"""
+    import gen_c05_cfile as C
+    import hashlib
+    text, ok = C.gen_cfile(protos)
+    d = os.path.join(vlib.BUILD, 'c05gen')
+    os.makedirs(d, exist_ok=True)
+    path = os.path.join(d, 'gen_%s.c' % hashlib.sha1(text.encode()).hexdigest()[:12])
+    if not os.path.exists(path):
+        with open(path + '.tmp', 'w') as f:
+            f.write(text)
+        os.rename(path + '.tmp', path)
+    for old in sorted(os.listdir(d), key=lambda x: os.path.getmtime(os.path.join(d, x)))[:-6]:
+        try:
+            os.remove(os.path.join(d, old))
+        except OSError:
+            pass
+    impl = vlib.build_harness('c05_probe_g', ['c05_probe.c', 'c05_asm.S', path], extra_flags=['-fno-strict-aliasing'])
+    return impl, ok
+
+
+def three_way(chk, impl_g, model, protos, ok, rng, engines):
+    """(1) gcc-compiled caller -> assembly probe must produce the model's image (validates SysV.v against
+    the platform compiler; a mismatch is a defect of the MODEL, reported as an internal error);
+    (2) MIR caller -> gcc-compiled callee: the callee must see every argument value, MIR every result."""
+    lines, meta = [], []
+    for k in ok:
+        p = protos[k]
+        vals, rets = G.gen_values(rng, p)
+        vals = G.fix_values(p, vals, rng)
+        meta.append((k, p, vals, rets))
+        lines.append(case_line('g%d' % k, 'gcc', '-', 'gcaller%d' % k, None, G.vals_bytes(p, vals), G.ret_bytes_n(p, rets)))
+        for e in engines:
+            lines.append(case_line('m%d.%s' % (k, e), 'c05', e, 'callee%d' % k, G.c05_mir(p), G.vals_bytes(p, vals),
+                                   G.ret_bytes_n(p, rets)))
+    rc, out, err = vlib.run_lines(impl_g, lines, timeout=1800)
+    rows = {}
+    for l in out:
+        if l.strip():
+            r = G.parse_impl(l)
+            rows.setdefault(r['id'], r)
+    mlines = [G.model_line('g%d' % k, p, vals, rets, VALS_ADDR) for k, p, vals, rets in meta]
+    rc2, mout, merr = vlib.run_lines(model, mlines, timeout=600)
+    if rc2 != 0 or len(mout) != len(mlines):
+        raise vlib.BuildError('model driver failed rc=%d: %s' % (rc2, merr[-800:]))
+    model_bad, found = [], []
+    for (k, p, vals, rets), ml in zip(meta, mout):
+        m = G.parse_model(ml)
+        r = rows.get('g%d' % k, dict(status='missing'))
+        chk.count(('gcc', G.proto_sig(p)), nontrivial=len(p['args']) >= 2)
+        chk.dist('threeway', 'gcc-caller->probe')
+        # (1) only the argument image / alignment / %al are compared for the gcc caller
+        pm = dict(m, res=[], rv=[])
+        if p['args'] and p['args'][0].startswith('rblk'):
+            pm['img'] = m['img'][1:]  # the hidden return-block pointer is the C caller's own temporary
+        b = G.compare_c05(dict(p, res=[]), pm, r, rets)
+        if b:
+            model_bad.append('%s: %s' % (G.proto_sig(p), '; '.join(b[:3])))
+            continue
+        offs, _ = G.layout(p)
+        for e in engines:
+            r = rows.get('m%d.%s' % (k, e), dict(status='missing', detail=''))
+            chk.count(('callee', G.proto_sig(p), e), nontrivial=len(p['args']) >= 2)
+            chk.dist('threeway', 'mir->gcc-callee')
+            bad = []
+            if r['status'] != 'ok':
+                bad.append('%s %s' % (r['status'], r.get('detail', '')))
+            else:
+                seen = r['seen']
+                for i, (t, v, o) in enumerate(zip(p['args'], vals, offs)):
+                    if t.startswith('rblk'):
+                        continue
+                    n = {'i8': 1, 'u8': 1, 'i16': 2, 'u16': 2, 'i32': 4, 'u32': 4}.get(t, len(v))
+                    if seen[o:o + n] != v[:n]:
+                        bad.append('gcc-compiled callee sees argument %d (%s) = %s, MIR passed %s' % (i, t, seen[o:o + n].hex(), v[:n].hex()))
+                if not p['args'] or not p['args'][0].startswith('rblk'):
+                    bad += [x for x in G.compare_c05(dict(p, args=[], nfixed=0, vararg=False), dict(m, img=[]), dict(r, img=None), rets, results_only=True)]
+            if bad:
+                found.append((dict(calls=[dict(proto=p, vals=vals)], rets=rets, engine=e, target='callee%d' % k), bad, m))
+    if model_bad:
+        raise vlib.BuildError('INTERNAL: the SysV model (coq/C05/SysV.v) disagrees with the platform compiler (gcc caller -> '
+                              'assembly probe); this is a defect of the verification model, not of /repo: ' + ' | '.join(model_bad[:4]))
+    return found
+
+
 def case_line(cid, mode, engine, target, mir, vals, io):
     return ' '.join([cid, mode, engine, target, G.hexs(mir.encode()) if mir else '-', G.hexs(vals), G.hexs(io)])
 
@@ -226,6 +311,28 @@ def run(chk):
         chk.finding(signature(c2, bad2, m2), replay_obj(c2, bad2, m2),
                     'native callee does not receive the ABI image for %s via %s: %s' % (
                         signature(c2).split(':', 2)[2], c2['engine'], '; '.join(bad2[:3])))
+    # three-way: gcc-compiled callers and callees generated from the same prototypes
+    trng = chk.rng('threeway')
+    singles = []
+    for c in cases:
+        if len(c['calls']) == 1 and c['calls'][0]['proto'] not in singles:
+            singles.append(c['calls'][0]['proto'])
+    singles = singles[:(100 if quick else 1000)]
+    for _ in range(100 if quick else 1500):  # prototypes whose types all have a C spelling
+        singles.append(G.gen_proto(trng, min_fixed=1, cf=True))
+    impl_g, ok = build_gen(chk, singles)
+    chk.cov['gcc_expressible_prototypes'] = '%d of %d' % (len(ok), len(singles))
+    for c2, bad2, m2 in three_way(chk, impl_g, model, singles, ok, trng, ['interp', 'gen2'] if quick else ENGINES_QUICK):
+        sig = 'c05:callee:' + signature(c2)
+        if sig in seen:
+            continue
+        seen.add(sig)
+        nbad += 1
+        if nbad <= 14:
+            ro = replay_obj(c2, bad2, m2)
+            ro['c_prototypes'] = [x['proto'] for x in c2['calls']]
+            chk.finding(signature(c2), ro, 'gcc-compiled callee %s called from MIR via %s: %s' % (
+                signature(c2).split(':', 2)[2], c2['engine'], '; '.join(bad2[:3])))
     if not r['ok'] and not nbad:
         chk.proof_broken(r, searched='%d calls agreed with the SysV model image' % len(cases))
 
